@@ -257,16 +257,10 @@ Proof. induction l; constructor; [split; reflexivity | assumption]. Qed.
 
 (** ** the view the checker evaluates *)
 
-(** the one degenerate input on which [view_C12] is false (see [c12_view_counterexample]): a trait with an
-    [async_trait] attribute whose delegation-target trait and selector trait are given the SAME name *)
-Definition c12_degenerate (attr : toks) (i : input) : Prop :=
-  exists h t a0 n, i = InTrait h t /\ parse_trait_attr attr = Ok a0 /\ ta_impl_trait a0 = Some n /\
-                   ta_delegate a0 = Some (ByTrait n) /\ contains_async_trait (h_attrs h) = true.
-
-Lemma c12_view_partial v attr i items :
-  expand_items v attr i = Ok items -> ~ c12_degenerate attr i -> good (view_C12 (mkCtx v attr i) items).
+Lemma c12_view v attr i items :
+  expand_items v attr i = Ok items -> good (view_C12 (mkCtx v attr i) items).
 Proof.
-  intros H ND. destruct i as [h s body|h|h t|h|h tp st body sigs sf|h|h name body sigs sf|h|]; try discriminate H.
+  intros H. destruct i as [h s body|h|h t|h|h tp st body sigs sf|h|h name body sigs sf|h|]; try discriminate H.
   - destruct (expand_fn_inv _ _ _ _ _ _ H) as (a & tf & tg & mode & ib & Ha & Hz & _ & Hib & ->).
     destruct (gen_impl_block_fns _ _ _ _ _ _ _ _ _ Hib) as (argss & Fa & Hfns & _ & Hattrs & _).
     unfold view_C12, fn_opts. cbn [x_input x_attr x_variant source_fns]. rewrite parts_fn, Ha.
@@ -295,16 +289,9 @@ Proof.
     rewrite sub_attrs_reapplied_ok; [|apply gen_trait_def_async_attrs | apply filter_idem]. cbn [andb].
     rewrite Hds in Hd. pose proof (delegation_ds _ _ _ _ _ _ Hd) as Hdd.
     cbn [eff_trait_attr ta_impl_trait ta_delegate] in Hdd |- *.
-    destruct (ta_impl_trait a0) as [n|] eqn:En; [|subst ds; reflexivity].
-    destruct Hdd as (td & Hn & Hat & [->|(del & sel & Hdel & -> & Hsn & Hsa)]).
-    + cbn [forallb]. rewrite Hat, sub_attrs_reapplied_ok; [|apply filter_idem | apply filter_idem].
-      rewrite orb_true_r. reflexivity.
-    + cbn [forallb]. rewrite Hat, sub_attrs_reapplied_ok; [|apply filter_idem | apply filter_idem].
-      rewrite orb_true_r, Hsn, Hsa. cbn [andb]. rewrite andb_true_r.
-      destruct (String.eqb del n) eqn:Edn; [|reflexivity]. apply String.eqb_eq in Edn. rewrite Edn in Hdel. cbn [negb orb].
-      destruct (contains_async_trait (h_attrs h)) eqn:Ec.
-      * exfalso. apply ND. exists h, t, a0, n. repeat split; assumption.
-      * unfold sub_attrs_reapplied. rewrite (contains_async_false _ Ec). reflexivity.
+    destruct (ta_impl_trait a0) as [n|] eqn:En; [|reflexivity].
+    destruct Hdd as (td & Hn & Hat & [->|(del & sel & Hdel & -> & Hsn & Hsa)]);
+      rewrite Hat; apply sub_attrs_reapplied_ok; apply filter_idem.
   - destruct (expand_impl_inv _ _ _ _ _ _ _ _ _ H) as (_ & bitems & fl & a & fns0 & tg & mode & ib & Hs & Ha & Hz & _ & Hib & ->).
     cbv zeta in Hz, Hib.
     destruct (gen_impl_block_fns _ _ _ _ _ _ _ _ _ Hib) as (argss & Fa & Hfns & _ & Hattrs & _).
@@ -323,47 +310,6 @@ Proof.
     destruct (c12_all_analyze _ _ (h_attrs h) _ _ (with_cfg_attrs_fn_ok _ _ _ _ (body_fns bitems) (analyze_all_fn_ok _ _ _ _ _ _ Hz))) as [I1 _].
     rewrite I1. cbn [andb].
     apply sub_attrs_reapplied_ok; [apply gen_trait_def_async_attrs | apply filter_idem].
-Qed.
-
-(** fn / mod / impl inputs: unconditionally *)
-Lemma c12_view_nontrait v attr i items :
-  expand_items v attr i = Ok items -> (forall h t, i <> InTrait h t) -> good (view_C12 (mkCtx v attr i) items).
-Proof.
-  intros H Hn. apply c12_view_partial; [exact H|]. intros (h & t & _ & _ & E & _). exact (Hn h t E).
-Qed.
-
-(** trait inputs: unless the SAME name is given to the delegation-target trait and the selector trait
-    while an [async_trait] attribute is present *)
-Lemma c12_view_trait v attr h t items :
-  expand_items v attr (InTrait h t) = Ok items ->
-  (forall a0 n, parse_trait_attr attr = Ok a0 -> ta_impl_trait a0 = Some n -> ta_delegate a0 = Some (ByTrait n) ->
-                contains_async_trait (h_attrs h) = false) ->
-  good (view_C12 (mkCtx v attr (InTrait h t)) items).
-Proof.
-  intros H Hs. apply c12_view_partial; [exact H|]. intros (h' & t' & a0 & n & E & Ha & Hi & Hd & Hc).
-  injection E as <- <-. rewrite (Hs a0 n Ha Hi Hd) in Hc. discriminate Hc.
-Qed.
-
-(** [view_C12] is false on the degenerate input
-    [#[entrait(FooImpl, delegate_by = FooImpl)] #[async_trait] trait Foo { async fn bar(&self); }]:
-    the selector trait (second generated trait, no attributes) has the name of the delegation-target
-    trait, and the predicate identifies the target trait(s) by name *)
-Definition c12_cex_attr : toks := [TId "FooImpl"; comma; TId "delegate_by"; pc "="; TId "FooImpl"].
-Definition c12_cex_input : input :=
-  InTrait (mkHead [[TId "async_trait"]] [] false false)
-          (mkTrait [] [] false false "Foo" no_generics false pempty
-                   [TFn [] (mkSig false true false None "bar" no_generics
-                                  (mkP [ArgRecv [] (Some None) false None] false) None None) None true]).
-
-Lemma c12_view_counterexample :
-  exists items, expand_items VEntrait c12_cex_attr c12_cex_input = Ok items /\
-                ~ good (view_C12 (mkCtx VEntrait c12_cex_attr c12_cex_input) items).
-Proof.
-  eexists. split; [vm_compute; reflexivity|]. intros G.
-  assert (Happ : v_app (view_C12 (mkCtx VEntrait c12_cex_attr c12_cex_input)
-            match expand_items VEntrait c12_cex_attr c12_cex_input with Ok items => items | _ => [] end) = true)
-    by (vm_compute; reflexivity).
-  destruct (G Happ) as [_ Hh]. vm_compute in Hh. discriminate Hh.
 Qed.
 
 (** ** explicit statements per input kind *)
